@@ -384,14 +384,40 @@ def r04c(ck, prog):
     ck.floor("R04c", n, 4, "accumulation sites")
 
 
+def r04g(ck, prog):
+    """no reader parses by absolute line position: a loop over the input lines whose body ends in an unconditional
+    break runs exactly once, i.e. it treats 'line 0' specially - leading blank lines then shift the whole file"""
+    n = 0
+    for name in READERS + ("detect_alignment_format", "kalign_read_input"):
+        F = prog.fn(name)
+        for lp in F.body.find("ForStmt", "WhileStmt"):
+            body = lp.child("body")
+            if body is None or body.k != "CompoundStmt":
+                continue
+            uses_lines = any(m.d.get("field") in ("l", "n_lines") and m.d.get("rec") == "in_buffer" for m in lp.find("MemberExpr"))
+            if not uses_lines:
+                continue
+            n += 1
+            uncond = [x for x in body.kids if x.k == "BreakStmt"]
+            where = site(prog, lp, "%s line loop" % name)
+            ck.inst("R04g", where, "%s: loop over input lines; unconditional break in body: %s" % (name, bool(uncond)), prog.config)
+            if uncond:
+                ck.violation("R04g", "R04g/%s/first-line" % name, where,
+                             "%s takes exactly the first line of the input as special (the loop body always breaks): a blank line "
+                             "before it shifts the parse and the real header is read as data" % name, prog.config)
+    ck.floor("R04g", n, 5, "loops over input lines")
+
+
 def run(ck, progs):
     describe(ck)
+    ck.rule("R04g", "no reader treats an absolute line number as special: loops over the input lines never break unconditionally")
     for cfg, prog in progs.items():
         ck.attempt(r04a, ck, prog)
         ck.attempt(r04b, ck, prog)
         from . import c01
         ck.attempt(c01.dealign_rule, ck, prog, "R04b")
         ck.attempt(r04c, ck, prog)
+        ck.attempt(r04g, ck, prog)
     return ("Sibling cross-check of the three readers' classification chains (predicate, actions, histogram, same "
             "character); span of every loop over msa_seq.gaps and coverage of the totals deciding the alignment status; "
             "who assigns ALN_STATUS_UNALIGNED; who touches gaps before the merge phase; stores into kalign_read_input's "
